@@ -616,3 +616,126 @@ def error_domains(program):
 def program_trait_methods(program):
     cg, _ = analyses(program)
     return cg.trait_impls
+
+
+# ---------------------------------------------------------------------------------------------------------------------
+# Index normal form: two index expressions that are arithmetically identical (conversion helper inlined or not, `/ c` or `>> k`,
+# `x / a / b` or `x / (a*b)`, `XId(a.0 + b.0)` or `a + b`, products distributed or not) get the same normal form, so the rules that
+# compare selectors / returned frames do not depend on how the index arithmetic is spelled.
+_NEWTYPE_ADTS = ("adt:llfree::FrameId::FrameId", "adt:llfree::lower::HugeId::HugeId", "adt:llfree::trees::TreeId::TreeId",
+                 "adt:llfree::bitfield::RowId::RowId")
+
+
+def lin_key(l):
+    """hashable canonical rendering of a linear form (as used for the arguments of Div atoms in index normal forms)"""
+    if l is None:
+        return None
+    return ("lin", tuple(sorted(((repr(k), k, v) for k, v in l[0].items()), key=lambda x: x[0])), l[1])
+
+
+def index_nf(prog, t, depth=8, want_lin=False):
+    import terms as _T
+    t = inline_pure(prog, t, depth=depth)
+    t = _T.canon(t)
+
+    def lin_key(l):
+        if l is None:
+            return None
+        return ("lin", tuple(sorted(((repr(k), k, v) for k, v in l[0].items()), key=lambda x: x[0])), l[1])
+
+    def lin_term(l):
+        """linear form -> term (so that it can be nested and re-linearised)"""
+        acc = ("c", l[1])
+        for kk, v in sorted(l[0].items(), key=lambda z: repr(z[0])):
+            acc = ("bin", "Add", acc, ("bin", "Mul", kk, ("c", v)))
+        return acc
+
+    def div_lin(la, c):
+        """floor(la / c) as a linear form over Div atoms: multiples of c are taken out, a common factor of the rest and c is
+        cancelled, (y / a) / c becomes y / (a*c)"""
+        from math import gcd
+        whole = {kk: v // c for kk, v in la[0].items() if v % c == 0}
+        rest = {kk: v for kk, v in la[0].items() if v % c != 0}
+        const = la[1]
+        wconst, rconst = (const // c, 0) if not rest else (0, const)
+        if not rest:
+            rconst = const % c
+            wconst = const // c
+            if rconst == 0:
+                return (whole, wconst)
+        g = c
+        for v in rest.values():
+            g = gcd(g, v)
+        g = gcd(g, rconst) if rconst else g
+        rest = {kk: v // g for kk, v in rest.items()}
+        rconst //= g
+        cc = c // g
+        if cc == 1:
+            out = dict(whole)
+            for kk, v in rest.items():
+                out[kk] = out.get(kk, 0) + v
+            return (out, wconst + rconst)
+        if len(rest) == 1 and rconst == 0:
+            (kk, v), = rest.items()
+            if v == 1 and kk[0] == "bin" and kk[1] == "Div" and kk[3][0] == "c":
+                atom = ("bin", "Div", kk[2], ("c", kk[3][1] * cc))
+                out = dict(whole)
+                out[atom] = out.get(atom, 0) + 1
+                return (out, wconst)
+        atom = ("bin", "Div", lin_key((rest, rconst)), ("c", cc))
+        out = dict(whole)
+        out[atom] = out.get(atom, 0) + 1
+        return (out, wconst)
+
+    def rw(x):
+        """-> rewritten term (newtype wrappers erased)"""
+        if not isinstance(x, tuple) or not x or not isinstance(x[0], str):
+            return x
+        k = x[0]
+        if k == "agg" and x[1] in _NEWTYPE_ADTS and len(x[2]) == 1:
+            return ("nt", rw(x[2][0]))
+        if k == "f" and x[2] == 0:
+            inner = rw(x[1])
+            if inner[0] == "nt":
+                return inner[1]
+            return ("f", inner, 0)
+        if k == "bin":
+            op, a, b = x[1], rw(x[2]), rw(x[3])
+            a = a[1] if a[0] == "nt" else a
+            b = b[1] if b[0] == "nt" else b
+            if op == "Shr" and b[0] == "c" and isinstance(b[1], int):
+                op, b = "Div", ("c", 1 << b[1])
+            if op == "Shl" and b[0] == "c" and isinstance(b[1], int):
+                op, b = "Mul", ("c", 1 << b[1])
+            if op in ("Div", "Rem") and b[0] == "c" and isinstance(b[1], int) and b[1] > 0:
+                c = b[1]
+                la = _T.linear(a)
+                if la is not None:
+                    if op == "Rem":
+                        # y % c  =  y - c * (y / c)
+                        d = div_lin(la, c)
+                        return lin_term(_T._lin_add(la, _T._lin_scale(d, c), -1))
+                    return lin_term(div_lin(la, c))
+                return ("bin", op, a, b)
+            return ("bin", op, a, b)
+        if k == "call":
+            return ("call", x[1], tuple(rw(a) for a in x[2]))
+        return tuple(rw(y) if isinstance(y, tuple) and y and isinstance(y[0], str) else
+                     (tuple(rw(z) for z in y) if isinstance(y, tuple) else y) for y in x)
+
+    r = rw(t)
+    if r[0] == "nt":
+        r = r[1]
+    l = _T.linear(r)
+    if want_lin:
+        return l
+    return lin_key(l) if l is not None else r
+
+
+def index_lin(prog, t):
+    """index normal form as a linear form (dict atom -> coefficient, constant), or None"""
+    return index_nf(prog, t, want_lin=True)
+
+
+def index_eq(prog, a, b):
+    return index_nf(prog, a) == index_nf(prog, b)
